@@ -17,8 +17,8 @@ RULE = ('cases = generated write-heavy programs for 2-3 connections over shared 
         'deterministic scheduler of vlib/sched.py with generated schedules, oracles (2) and: every returned commit is stored, '
         'counters equal the sum of successful increments, plus the snapshot oracles of C02); distinct by program hash')
 ASSUMPTIONS = c02_snapshot.ASSUMPTIONS
-BUDGET = {'quick': {'examples': 8000, 'workers': 8},
-          'thorough': {'examples': 60000, 'workers': 16}}
+BUDGET = {'quick': {'examples': 10000, 'workers': 8},
+          'thorough': {'examples': 80000, 'workers': 16}}
 
 
 def strategy(tier):
